@@ -19,7 +19,14 @@ import (
 func TestVerifV2Conc(t *testing.T) {
 	vt := newV2T()
 	defer vt.out.Close()
-	docs := v2Corpus()
+	docs := append([]v2Doc(nil), v2Corpus()...)
+	// documents shorter than the minimum run length, without any word, with nothing but a notice: whatever Match does
+	// about them it must not do to shared state
+	docs = append(docs,
+		v2Doc{Key: "License/Tiny-PD/license.txt", Cat: "License", Name: "Tiny-PD", Variant: "license.txt", Data: []byte("public domain\n")},
+		v2Doc{Key: "License/Tiny-Three/license.txt", Cat: "License", Name: "Tiny-Three", Variant: "license.txt", Data: []byte("all rights reserved\n")},
+		v2Doc{Key: "License/Empty/license.txt", Cat: "License", Name: "Empty", Variant: "license.txt", Data: []byte("")},
+		v2Doc{Key: "License/OnlyNotice/license.txt", Cat: "License", Name: "OnlyNotice", Variant: "license.txt", Data: []byte("Copyright 2020 Nobody\n")})
 	c := vt.build("c09", 0.8, docs)
 	pick := func(key string) []byte {
 		for _, d := range docs {
@@ -37,6 +44,7 @@ func TestVerifV2Conc(t *testing.T) {
 	for _, b := range base {
 		inputs = append(inputs, b, vt.editWords(c, b, 0.03), append(append(vt.oovBlock(c, 2), b...), vt.oovBlock(c, 2)...))
 	}
+	inputs = append(inputs, []byte("This work is in the public domain.\nAll rights reserved by nobody.\n"))
 	n := vuEnvInt("VERIF_GOROUTINES", 8)
 	rounds := vuEnvInt("VERIF_ROUNDS", 3)
 	// sequential reference on a SEPARATE instance: the shared classifier meets its first calls concurrently
